@@ -46,6 +46,7 @@ class Monitor:
         self.sites = None               # optional set of (kind, file, func, line)
         self.in_callback = 0
         self.instr_codes = ()
+        self.last_count = 0             # matching events counted by the most recent armed fault
         self.cur = 0                    # index of the running simulated thread (set by the scheduler)
 
     # ------------------------------------------------------------------ setup
@@ -91,9 +92,12 @@ class Monitor:
 
     def arm(self, fault):
         """fault: {'kind': 'sync_student'|'sync_instructor'|'sync_record'|'sync_pedal', 'k': int, 'exc': name}"""
+        if fault is None and self.armed is not None:
+            self.last_count = self.armed.get('_count', 0)
         self.armed = dict(fault) if fault is not None else None
         if self.armed is not None:
             self.armed['_count'] = 0
+            self.last_count = 0
 
     # ------------------------------------------------------------------ classify
     def _classify(self, filename):
@@ -159,6 +163,7 @@ class Monitor:
             if hit:
                 f['_count'] += 1
                 if f['_count'] == f['k']:
+                    self.last_count = f['_count']
                     self.armed = None
                     exc = faults.make(f['exc'])
                     self.fired.append({'kind': fk, 'k': f['k'], 'exc': f['exc'],
